@@ -29,6 +29,7 @@ import (
 	"fmt"
 	"sort"
 	"sync"
+	"sync/atomic"
 
 	"github.com/btcsuite/btcd/btcutil/v2"
 	"github.com/btcsuite/btcd/chainhash/v2"
@@ -119,13 +120,17 @@ type DB struct {
 	closed      bool
 	cur         *state
 	log         []*state // log[n] = state after n commits
-	genCtr      uint64
 	openTxs     int
 	wake        chan struct{} // closed and replaced whenever a tx ends
 	writer      chan struct{} // capacity 1: single writer
 }
 
 var _ database.DB = (*DB)(nil)
+
+// genCtr numbers transactions across all databases: states are shared between
+// a database and its CrashPrefix/Clone copies, so the ownership mark of a node
+// must be unique process-wide.
+var genCtr atomic.Uint64
 
 // New returns an empty, open model database.
 func New(net wire.BitcoinNet, maxFileSize uint32) *DB {
@@ -239,8 +244,7 @@ func (d *DB) begin(writable bool) (*tx, error) {
 		return nil, dbErr(database.ErrDbNotOpen, "database is not open")
 	}
 	d.openTxs++
-	d.genCtr++
-	t := &tx{db: d, writable: writable, gen: d.genCtr, base: d.cur, root: d.cur.root, max: d.maxFileSize}
+	t := &tx{db: d, writable: writable, gen: genCtr.Add(1), base: d.cur, root: d.cur.root, max: d.maxFileSize}
 	d.mu.Unlock()
 	return t, nil
 }
